@@ -129,6 +129,11 @@ def run():
         if norm(r.kid(0)) != ("c", 0):
             claim("self_affine", "x >= 5 after x = 2x + 3 from x >= 1", v is not None and A.holds(st, ">=", v, Lin.const(5)), True)
             claim("self_affine", "x >= 6 after x = 2x + 3 from x >= 1", v is not None and A.holds(st, ">=", v, Lin.const(6)), False)
+    # round_mask / wrong_mask
+    for fn, want in (("round_mask", True), ("wrong_mask", False)):
+        f = u.func(fn); A = poly.Analysis(f, unsigned_terms={P(f, "len")}).run()
+        for r, st, v in retval(A, f):
+            claim(fn, "result >= len", v is not None and A.holds(st, ">=", v, Lin.var(P(f, "len"))), want)
     return n, fails
 
 
